@@ -9,7 +9,7 @@
    Result: I { abc }                       validity of every input file: as stored / file+batch options
                                            removed / all removed  (a?? when vis = 0)
            | ERR                           Batch.Create fails on a trace-number rule
-           | nFiles { F origin dest hid OPT V<valid> fcBatches fcCount fcHash fcDebit fcCredit nBatches
+           | nFiles { F origin dest hid OPT V<valid>S<valid without any option, or ?> fcBatches fcCount fcHash fcDebit fcCredit nBatches
                       { B number rest OPT cCount cHash cDebit cCredit nEntries { id trace-after-Create } } } *)
 open Model
 open Conv
@@ -122,8 +122,11 @@ let run_case (line : string) : string =
                    { rb with rbo_entries = (match rbo_created rb with Some es -> es | None -> rb.rbo_entries) }) g.rfo_batches } in
       let vf = xm_ofile gen_tables code rdfi chk mo g' in
       let fc = vf.vf_ctl in
-      Buffer.add_string b (Printf.sprintf " F %s %s %d %s V%c %d %d %d %d %d %d" (hex_of_bytes g.rfo_origin) (hex_of_bytes g.rfo_dest)
+      let bare = { vf with vf_opts = None;
+                           vf_batches = List.map (fun x -> { x with vb_opts = None; vb_eopts = List.map (fun _ -> None) x.vb_eopts }) vf.vf_batches } in
+      Buffer.add_string b (Printf.sprintf " F %s %s %d %s V%cS%c %d %d %d %d %d %d" (hex_of_bytes g.rfo_origin) (hex_of_bytes g.rfo_dest)
         (int_of_n g.rfo_hid) (token_of_opt g.rfo_opts) (bit (file_valid_o csem gen_tables vf))
+        (if vis = 1 then bit (file_valid_o csem gen_tables bare) else '?')
         (int_of_z fc.fc_batches) (int_of_z fc.fc_count) (int_of_z fc.fc_hash) (int_of_z fc.fc_debit) (int_of_z fc.fc_credit)
         (List.length g.rfo_batches));
       List.iter2 (fun rb vbt ->
